@@ -38,7 +38,7 @@ var timers []*Timer
 func ResetAll() { timers = nil }
 
 func NewTimer(d Duration) *Timer {
-	vsched.Step()
+	vsched.StepK(vsched.KTimerNew)
 	t := &Timer{C: vchan.Make[Time](1), armed: true, D: d}
 	timers = append(timers, t)
 	return t
@@ -46,14 +46,14 @@ func NewTimer(d Duration) *Timer {
 
 // AfterFunc mirrors time.AfterFunc: when the timer is fired the callback runs in a new goroutine.
 func AfterFunc(d Duration, f func()) *Timer {
-	vsched.Step()
+	vsched.StepK(vsched.KAfterFunc)
 	t := &Timer{C: vchan.Make[Time](1), armed: true, D: d, f: f}
 	timers = append(timers, t)
 	return t
 }
 
 func (t *Timer) Stop() bool {
-	vsched.Step()
+	vsched.StepK(vsched.KTimerStop)
 	was := t.armed || t.C.Len() > 0
 	t.armed = false
 	t.C.Drain()
@@ -61,7 +61,7 @@ func (t *Timer) Stop() bool {
 }
 
 func (t *Timer) Reset(d Duration) bool {
-	vsched.Step()
+	vsched.StepK(vsched.KTimerReset)
 	was := t.armed || t.C.Len() > 0
 	t.armed = true
 	t.D = d
